@@ -3,6 +3,7 @@ module verif/harness
 go 1.23
 
 require (
+	github.com/cespare/xxhash/v2 v2.2.0
 	github.com/lindb/common v0.0.6
 	github.com/lindb/lindb v0.0.0
 	go.uber.org/zap v1.21.0
@@ -12,7 +13,6 @@ require (
 	github.com/BurntSushi/toml v1.2.1 // indirect
 	github.com/antlr4-go/antlr/v4 v4.13.0 // indirect
 	github.com/caarlos0/env/v7 v7.1.0 // indirect
-	github.com/cespare/xxhash/v2 v2.2.0 // indirect
 	github.com/coreos/go-semver v0.3.0 // indirect
 	github.com/coreos/go-systemd/v22 v22.5.0 // indirect
 	github.com/dustin/go-humanize v1.0.1 // indirect
